@@ -48,10 +48,18 @@ RULE = ("exhaustive: dimensions -1..5 x value containers (list, tuple, ndarray; 
         "+ - with numbers and bare ndarrays; Curve reads: curve[i] for every i in -n-2..n+1, slices, GetLength(), repr "
         "(parsed back: units, the pairs shown, the ellipsis) on curves of 0..4 points over every pair of 7 container "
         "shapes, fresh and after an accepted and a rejected setter, on curves of 20 / 21 / 22 / 30 points, and mixed "
-        "into the random call sequences")
+        "into the random call sequences.  Added: ndarray containers of an INTEGER dtype (int32, int64) and of float32 (dimension "
+        "2..4, m / cm / ft / no unit) x every index -n-1..n x ChangingIndex with FRACTIONAL amounts as a number, (v,), (v, unit), "
+        "(v, unit, category), (None, unit), a Scalar in the array's own and in another unit, use_value_unit True / False / default, "
+        "each also followed by IndexAsScalar of the changed index (with and without a quantity); IndexAsScalar with and without a "
+        "target quantity on them; 30% of the random chains start from such a container (operations that stay clear of "
+        "array-with-array arithmetic and CreateCopy with a unit).  A number the real code holds as numpy.float32, or computed from "
+        "such numbers, is compared within K*eps(float32)*M; the element ChangingIndex stores is a Python float today and is "
+        "compared within the float64 bound")
 EXHAUSTIVE = {"quick": True, "thorough": True}
 ASSUMPTIONS = [
-    "FixedArray part: values are 1-D containers of finite numbers (list, tuple, 1-D float64 ndarray); containers of "
+    "FixedArray part: values are 1-D containers of finite numbers (list, tuple, 1-D ndarray of float64 - and, through ChangingIndex / "
+    "IndexAsScalar / same-unit operations, of int32 / int64 / float32); containers of "
     "points (list / tuple of tuples, 2-D ndarray) are taken through the construction routes only, where nothing but "
     "their count matters - the Curve part takes them everywhere, with their numbers; a str or another n-D ndarray in a "
     "FixedArray values slot is outside the modelled domain (e.g. a (3,) FixedArray plus a (2,1) ndarray broadcasts to a 2x3 "
@@ -1014,9 +1022,28 @@ def random_op(rng, store_size):
     return o
 
 
+def typed_chain_op(rng, store_size):
+    """an operation for a chain that starts from an int / float32 ndarray container: everything but array-with-array
+    arithmetic and CreateCopy with a unit / category.  Those re-express a list / tuple ELEMENT BY ELEMENT through
+    `UnitDatabase._ConvertMatchingExp`, which takes a numpy.float32 / numpy.int32 element (what ChangingIndex leaves
+    in its tuple) for a sequence and raises TypeError - a defect of the unit algebra (C03/C04), reported, kept out here."""
+    while True:
+        o = random_op(rng, store_size)
+        if o["do"] == "arith" and ("arr" in o["rhs"] or "other" in o["rhs"]):
+            continue
+        if o["do"] in ("createCopy", "createCopyKw") and (o.get("unit") is not None or o.get("category") is not None):
+            continue
+        return o
+
+
 def chain_cases(ctx, rng, n):
     for i in range(n):
         cmds = [dict(make=make_source(rng, typed=True))]
+        if "dt" in cmds[0]["make"]["values"]:
+            for _ in range(rng.randint(1, 8)):
+                cmds.append(dict(src=0 if rng.random() < 0.7 else rng.randrange(len(cmds)), o=typed_chain_op(rng, len(cmds))))
+            yield dict(op="chain", _t=dict(cmds=cmds))
+            continue
         if rng.random() < 0.5:
             r = rng.choice((dict(route="cea", cls="none", dimension=rng.choice((1, 2, 3, 3))),
                             dict(route="fromScalars", cls=rng.choice(("none", "v3")), scalars=[dict(q=rng.choice((QL, QC, QD)), v=enc(x)) for x in nums(rng, rng.choice((0, 2, 3)))]),
